@@ -768,9 +768,23 @@ func (e *Exec) GenOp(r *rand.Rand, p Profile) []string {
 		// the same directory opened through a Go struct whose shape changed: every operation
 		// must be refused and every file must stay byte-identical
 		k := 2 + r.Intn(3)
-		out := []string{"close", "dirhash", fmt.Sprintf("vopen %d", k)}
-		nextSid++
+		out := []string{"close"}
 		u := e.pickLive(r)
+		if pct(r, 35) {
+			// ... also when the directory is, at the same time, out of step with its index (a file
+			// added or removed from outside): the structure error comes first and keeps coming
+			if u != 0 && pct(r, 50) {
+				out = append(out, fmt.Sprintf("rmfile %d", u))
+			} else {
+				af := genRec(r, e.cfg)
+				af.U = len(e.uu)
+				af.K[shape.FTM], af.K[shape.FVM] = "i0", "i0"
+				cf, _ := e.spec.canon(af)
+				out = append(out, "addfile "+cf.String())
+			}
+		}
+		out = append(out, "dirhash", fmt.Sprintf("vopen %d", k))
+		nextSid++
 		if u == 0 {
 			u = 1
 		}
